@@ -6,7 +6,8 @@ import os
 VERIF = os.path.dirname(os.path.dirname(os.path.abspath(__file__)))
 
 TECH = ("bounded symbolic execution of the real desolver source on polynomial-normal-form symbolic reals "
-        "(numpy object arrays) with z3 deciding every path condition and assertion; counterexamples replayed on the float64 code")
+        "(numpy object arrays) with z3 deciding every path condition and assertion; counterexamples replayed on the float64 code; "
+        "a value the code converts with float() is pinned to the path's model (concolic fallback, reported as incomplete coverage)")
 
 NOTE_COMMON = ("Arithmetic over the reals, not IEEE-754 (rounding/overflow/dtype outside the claim); bounded (see evidence 'bounds'); "
                "harness-process shims listed in evidence 'assumptions'; solver 'unknown' or a killed worker is reported inconclusive, never success.")
@@ -21,7 +22,7 @@ CHECKS = {
         "system is integrated for one symbolic step h by the real integrator __call__ of every shipped class (explicit, implicit via exact Picard roots "
         "of the real algebraic_system, splitting schemes on bicoloured trees, Richardson wrappers with 2..5 levels) and z3 decides for all h that the "
         "root component equals h^n/gamma(tau) within 2^-23 relative; embedded rows and the c column are checked the same way; 'warm' instances repeat the low-order trees on an integrator "
-        "object that has just stepped a different equation ending where the step starts, '2d-layout' instances store the state of the splitting schemes as a (2, n) matrix. Bounded by tree order; "
+        "object that has just stepped a different equation ending where the step starts, Richardson wrappers are also assessed on the SECOND step one wrapper object takes, '2d-layout' instances store the state of the splitting schemes as a (2, n) matrix. Bounded by tree order; "
         "universal over h.", "DESIGN.md 3/C01",
         "Butcher's theorem and the local->global convergence theorem are the trusted mathematical base; RadauIIA19 orders 11..19 via simplifying assumptions B,C,D."),
     "C02": _entry("other",
@@ -30,13 +31,13 @@ CHECKS = {
         "symbol); histories: consecutive calls, a call whose first trial is rejected and whose retry is interrupted by a fault, then repeated, and an attempt during which the rhs RETURNED NaN "
         "(rejected, then retried / called again on the same object: nothing non-finite may leak into the next attempt). Splitting schemes: the stated drift/kick "
         "composition; implicit: the real algebraic_system equals K - f(...), the accepted increment is that of the returned root, the accepted step has the sign of h and is not longer, "
-        "and a step is never accepted unless the last stage solve reported success and prec < tol (else FailedToMeetTolerances after 64 retries).", "DESIGN.md 3/C02, 6.4",
+        "and a step is never accepted unless the last stage solve reported success and prec < tol (else FailedToMeetTolerances after 64 retries), where tol handed to the stage solver is asserted to be 0.5*(atol + rtol*max|y|) of the state THIS step starts from (also on a second call of the object from a state of another magnitude).", "DESIGN.md 3/C02, 6.4, 6.6",
         "optimizer.nonlinear_roots replaced by the verdict_root contract stub; embedded pairs use the ctrl stub."),
     "C03": _entry("other",
         "OdeSystem.__init__/integrate run symbolically with t0, tf, dt0 and later targets as arbitrary reals (any sign, either direction, dt larger or smaller than the span); "
         "all feasible paths within N steps: first row (t0,y0), paired rows, strictly monotone toward the target, no overshoot, ends within 64 eps*scale of the target, "
         "status completed, termination within the step bound, and every recorded row advances time AND state by the increment of the same accepted attempt (pairing); one call and "
-        "sequences of integrate(t) calls incl. reversal and already-there; the same grid assertions on runs that monitor events (events oracle: rolled-back / re-recorded steps, buffer growth).", "DESIGN.md 3/C03",
+        "sequences of integrate(t) calls incl. reversal and already-there; the same grid assertions on runs that monitor events (events oracle: rolled-back / re-recorded steps, buffer growth) and on runs in which a step callback assigns a longer working step after every step.", "DESIGN.md 3/C03",
         "|tf-t0| <= N*|dt0| with N = 3 (quick) / 5 (thorough)."),
     "C04": _entry("other",
         "Same symbolic runs restricted to |dt0| <= span: every recorded step but the last (of each call; one call and two consecutive calls) has magnitude |dt0| and none is longer, also when the second call turns round towards / onto / beyond the original start time "
@@ -48,13 +49,13 @@ CHECKS = {
         "FailedToMeetTolerances (FailedIntegration through OdeSystem, no row recorded); through OdeSystem a recorded row is exactly the last (accepted) attempt from its start time; the REAL update_timestep / implicit_aware_update_timestep decided in isolation with "
         "axiomatised pow/arctan: corr in (0.2, 2.6), redo <=> corr < 0.81, accept => scaled error <= 1, error >= 4 => redo; two consecutive real __call__s with the real controller: a step "
         "accepted attempt (after an earlier step and after rejected attempts of the same call) meets the tolerance formed from its OWN data; tolerance flow: symbolic rtol/atol set through the "
-        "constructor or the setters (before / after a first leg) reach the controller and the basis integrators of Richardson wrappers; Richardson re-entry shrinks and terminates.",
+        "constructor or the setters (before / after a first leg) reach the controller and the basis integrators of Richardson wrappers; Richardson re-entry shrinks and terminates; a wrapper around an adaptive base whose controller shortens the coarsest sub-step: every level of the extrapolation table covers the interval handed back (either sign).",
         "DESIGN.md 3/C05", "First sentence (global error proportional to tolerances) is NOT claimed: not solver-decidable with a useful bound."),
     "C06": _entry("other",
         "With dense output on, t0, tf, dt0 and a query q symbolic: sol(t_i) = y_i; the piece chosen by find_interval and find_interval_vec contains q for every q in the integrated "
         "range, both directions; pieces contiguous in step order with end values = recorded states and end slopes = f at the recorded states (congruent uninterpreted rhs: stale "
         "slopes are caught); continuation in a second call; histories with non-terminal and terminal events (rolled-back step) and continuation after the stop through the real event "
-        "section of integrate (events oracle, which like the real detector evaluates the dense output at scalar times inside the bracket; post-run queries newest first); Richardson pieces cover the step.", "DESIGN.md 3/C06", "O(h^4) interpolation error bound is outside the claim."),
+        "section of integrate (events oracle, which like the real detector evaluates the dense output at scalar times inside the bracket; post-run queries newest first); constants replaced between two calls (every piece has the end slopes of the equation in force for its step); Richardson pieces cover the step.", "DESIGN.md 3/C06", "O(h^4) interpolation error bound is outside the claim."),
     "C07": _entry("other",
         "Assume/guarantee: (A) the REAL handle_events on a symbolic step of either direction with 1-3 affine event functions (symbolic slope and root, directions and terminal flags "
         "enumerated) and the root finder replaced by the bracket_root stub: every returned event had success, lies in the bracket within sqrt(eps)*|step| of the true root, crosses in a "
@@ -72,42 +73,42 @@ CHECKS = {
         "(A) REAL handle_events with >= 2 events, at least one terminal: only events up to the first terminal one along the direction of integration are returned, the list ends at "
         "the EARLIEST located terminal crossing; (B) REAL integrate with the events oracle and mixes of terminal/non-terminal events, both directions, finite and infinite tf: last time = terminal root, nothing beyond, strictly "
         "monotone rows, last reported event is the terminal one, no detector call afterwards, status terminated-by-event = success, callbacks once per outer step; dense output one "
-        "piece per recorded step, contiguous from t0 to the root with end slopes = f at recorded states; a following integrate() continues monotonically to tf; detector-fault histories (the event search raises, integrate() is called again: the terminal event is still honoured).",
+        "piece per recorded step, contiguous from t0 to the root with end slopes = f at recorded states; a following integrate() continues monotonically to tf; tf = +inf and tf = -inf; detector-fault histories (the event search raises, integrate() is called again: the terminal event is still honoured).",
         "DESIGN.md 3/C07-C09"),
     "C10": _entry("other",
         "Hamiltonian uninterpreted: the real ExplicitSymplecticIntegrator.__call__ on dual numbers with a right-hand side of arbitrary separable Hamiltonian structure: whole-step "
         "M^T J M = J as a polynomial identity and per-stage form (each stage factor symplectic, real update has the drift/kick form) for 1-2 d.o.f.; step(h);step(-h) = identity with "
-        "congruent T'(p), V'(q) on fresh integrators AND on one integrator object through two round trips from different states, also after a step on that object was abandoned by an rhs exception at its k-th evaluation (the step map must not depend on the object's history); kick masks by default, constructor and set_kick_vars, and a default-mask integrator built AFTER a custom-mask one of the same shape; implicit symplectic classes: b_i a_ij + b_j a_ji = b_i b_j, symmetry, R(z)R(-z) = 1, real step "
+        "congruent T'(p), V'(q) on fresh integrators AND on one integrator object through two round trips from different states, also after a step on that object was abandoned by an rhs exception at its k-th evaluation (the step map must not depend on the object's history); kick masks by default, constructor and set_kick_vars, a matrix-shaped state (one row (q_i, p_i) per particle) with a mask varying along the trailing axis, and a default-mask integrator built AFTER a custom-mask one of the same shape; implicit symplectic classes: b_i a_ij + b_j a_ji = b_i b_j, symmetry, R(z)R(-z) = 1, real step "
         "= R on the rotation block.", "DESIGN.md 3/C10", "Closure of the symplectic group and the Sanz-Serna/Lasagni tableau condition are the trusted mathematical base; energy drift is a consequence, not decided."),
     "C11": _entry("other",
         "For all 16 implicit classes, R = P/Q built at run time from the exact rational values of the float64 tableau entries: z3 proves |R(z)|^2 <= 1+1e-9 and det(I - zA) != 0 for ALL z "
         "with Re z <= 0 (two-variable queries for <= 3 stages; Hermite-Biehler interlacing certificate + axis bound + maximum modulus for every class incl. RadauIIA19); the real "
         "RungeKuttaIntegrator.step on y'=lambda*y, a 2x2 rotation block and a diagonal pair with the exact-root stub satisfies Q(z)(y+dY) = P(z)y; the full __call__ with a failed "
-        "first stage solve and an exactly solved retry keeps the direction of h and does not increase |y|; two consecutive calls with the decay rate changed through the constants: the second step is R(z_new).", "DESIGN.md 3/C11",
+        "first stage solve and an exactly solved retry keeps the direction of h and does not increase |y|; two consecutive calls with the decay rate changed through the constants, or with another step size on the same object: the second step is R(z_new).", "DESIGN.md 3/C11",
         "Slack 1e-9 on |R|^2 (rounded coefficients). Trusted base for RadauIIA19: Hermite-Biehler theorem, maximum-modulus principle."),
     "C12": _entry("fault_enumeration",
         "Crash points enumerated exhaustively within the bound (every rhs-evaluation index / callback invocation / event-function evaluation of runs of <= N steps, four exception "
         "kinds, 5 method families), "
         "each instance universal over t0, tf, dt0: FailedIntegration with the injected cause (KeyboardInterrupt as itself), status, recorded rows = prefix of the fault-free twin run, "
         "dense output one piece per recorded step, resume reaches tf with the prefix intact, every piece of the resumed run has end slopes f(recorded state) (all families) and equals the uninterrupted run's (fixed step), "
-        "reset() restores a pristine system; value faults (rhs returns NaN, then reset and re-run equals a fresh run) and a diverging stage solve (the call recovers by retrying or a second integrate() continues to the target); a QF_FP corner for Richardson wrappers (half steps that do not land on fl(t+h)) is run on the real float64 code.",
+        "reset() restores a pristine system; value faults (rhs returns NaN, then reset and re-run equals a fresh run) and a diverging stage solve (the call recovers by retrying or a second integrate() continues to the target); a failure while a step is re-taken up to a terminal event (the error's direct cause is the injected exception, events beyond the recorded rows are dropped, the working step is restored); a QF_FP corner for Richardson wrappers (half steps that do not land on fl(t+h)) is run on the real float64 code.",
         "DESIGN.md 3/C12", "N = 2 (quick) / 3 + two successive faults (thorough). Event-function faults run the real handle_events with the root finder stubbed. Known finding c12.valueerror_swallowed_by_retry."),
     "C13": _entry("other",
         "All operation sequences up to the length bound over {integrate, integrate(T), set dt/tol/method, set_kick_vars, integrate with an event, faulting integrate, reset} with symbolic "
         "arguments: integrate() at the target is a no-op; reset() restores (t0,y0), no events, empty dense output, dt0, nfev 0, status 0 and the next run (rows and dense pieces) is "
-        "term-identical to a fresh system's (histories with events re-run WITH the same event function: recorded events equal the fresh system's, with and WITHOUT dense output, the detector reporting in the 1st/2nd/3rd examined step, the run before the reset on another step size); integrate(T) with T within the arrival tolerance (32 eps) of the current time changes nothing; caller's y0/constants untouched; an entry written into the constants of another system built without constants does not reach this one; split runs keep the rows before the split.", "DESIGN.md 3/C13, 6.6",
+        "term-identical to a fresh system's (histories with events re-run WITH the same event function: recorded events equal the fresh system's, with and WITHOUT dense output, the detector reporting in the 1st/2nd/3rd examined step, the run before the reset on another step size); integrate(T) with T within the arrival tolerance (32 eps) of the current time changes nothing; caller's y0/constants untouched; an entry written into the constants of another system built without constants does not reach this one; an implicit scheme WITHOUT a user Jacobian (real finite-difference wrapper, stage solver a congruent function of the residual and Jacobian it is handed) with the constants replaced before the reset; split runs keep the rows before the split.", "DESIGN.md 3/C13, 6.6",
         "bit-for-bit is decided as term identity over R; adaptive 'within tolerance' not claimed."),
     "C17": _entry("other",
         "For every array length up to the bound, every strictly increasing real array and every real query (scalar and vector), z3 shows on every feasible path of the real "
         "search_bisection/search_bisection_vec that the returned index is the first element >= query (clipped) and that both agree; CubicHermiteInterp is exact (value and gradient) "
-        "on the general cubic with symbolic coefficients, interval of either orientation, symbolic evaluation point (inside and outside the interval), scalar, vector and matrix-valued data (incl. leading dimension 4); integer-typed knots; the caller re-uses the arrays it passed in AND writes into the arrays the piece returned: all values are reproduced afterwards.", "DESIGN.md 3/C17",
+        "on the general cubic with symbolic coefficients, interval of either orientation, symbolic evaluation point (inside and outside the interval), scalar, vector and matrix-valued data (incl. leading dimension 4); integer-typed knots; the caller re-uses the arrays it passed in AND writes into the arrays the piece returned: all values are reproduced afterwards; the scalar search on a container that was searched, refilled in place and is searched again.", "DESIGN.md 3/C17",
         "Array lengths <= 6 (quick) / 7 (thorough); vector queries <= 2 / 3."),
     "C14": _entry("other",
         "For every feasible path of the real brentsroot and brentsrootvec (1-3 components) under the unwinding assumption |b-a| <= 2^k*tol, z3 shows for ALL real brackets (either order), "
         "tolerances in [4*eps64, 1e-3] (plus None and below-floor) and function parameters of the families linear s*(x-r) (s = +-1e-6..1e9 concrete and symbolic; root inside/outside/at an "
         "end) and jump (-u | +v): the returned point lies in the closed bracket or no success is claimed; a bracketed sign change is located to within tol and success is reported; "
         "a root exactly on a bracket end is found and reported; success implies |f| <= tol or a sign change within tol; no sign change and |f| > tol at both ends implies no success; the loop never reaches the iteration cap; vector and "
-        "scalar solver agree whenever f(a)f(b) < 0; WIDE brackets of concrete width 2^K*tol (K up to 66 quick / 72 thorough, default tolerance, unit jump at a symbolic position inside a window of tol/8 at several places of the bracket) run the ~K halvings: located, certified, left by convergence.  A bit-precise QF_FP corner picks a linear function and a bracket whose end values are finite while their product overflows float16/float32 (inf/inf interpolants): the REAL solvers run on it in that dtype, both bracket orders.  A bit-precise QF_FP lemma exhibits adjacent floats (x in +-(0.5,2), +-(4,8), +-(64,128)) bracketing a sign change with both residuals above tol and the real brentsroot AND brentsrootvec are run on it.",
+        "scalar solver agree whenever f(a)f(b) < 0; WIDE brackets of concrete width 2^K*tol (K up to 66 quick / 72 thorough, default tolerance, unit jump at a symbolic position inside a window of tol/8 at several places of the bracket) run the ~K halvings: located, certified, left by convergence.  A bit-precise QF_FP corner picks a linear function and a bracket whose end values are finite while their product overflows float16/float32 (inf/inf interpolants): the REAL solvers run on it in that dtype, both bracket orders; the caller's per-component bracket arrays come back unmodified.  A bit-precise QF_FP lemma exhibits adjacent floats (x in +-(0.5,2), +-(4,8), +-(64,128)) bracketing a sign change with both residuals above tol and the real brentsroot AND brentsrootvec are run on it.",
         "DESIGN.md 3/C14", "k = 4/3 halvings (quick), 8/7 (thorough); vector lengths 1..3; two-root quadratics thorough-only (may end inconclusive). Known findings: "
         "c14.absolute_residual_success (flat functions, literal reading), c14.vec_unbracketed_result."),
     "C16": _entry("other",
@@ -119,16 +120,16 @@ CHECKS = {
     "C18": _entry("other",
         "The real solve_ivp with symbolic t_span, first_step, max_step, t_eval entries (unsorted, repeated, with/without end points), y0 of shape (2,) and (2,2), args, methods by name "
         "and class, and in the same path the object API with the same settings: shapes, columns pair with times, first column y0, the k-th returned time is the k-th requested one in the order of integration (multiplicities kept, "
-        "either direction) with columns equal to the object API's states at the requested times, args (tuples shorter than, and as long as, the rhs parameter list with defaults) bound positionally at every evaluation, no step above max_step, counters/status those of the system; t_eval together with dense_output=True.",
+        "either direction) with columns equal to the object API's states at the requested times, args (tuples shorter than, and as long as, the rhs parameter list with defaults; rhs a function, a bound method or a callable object) bound positionally at every evaluation, no step above max_step, counters/status those of the system; t_eval together with dense_output=True.",
         "DESIGN.md 3/C18", "Parity with scipy.integrate.solve_ivp is not applicable to this technique (independent compiled numerics)."),
     "C19": _entry("other",
         "On symbolic trajectories (forward, backward, continued, ctrl-adaptive): every integer index in [-len-2, len+2] has sequence semantics, iteration yields each row once in order, "
         "a lookup at an arbitrary real time returns a recorded sample nearest in time (dense: (q, sol(q))), a slice spanning the run returns the run; also for runs AGAINST the "
-        "direction of the constructor's span, for non-dense runs that monitored an event function, and after a step callback looked the trajectory up by time / sliced it at every step of the run (those lookups answer from the rows recorded so far); numpy integers (int64, int32, intp, uint8) are integer indices.", "DESIGN.md 3/C19"),
+        "direction of the constructor's span, for non-dense runs that monitored an event function, and after a step callback looked the trajectory up by time / sliced it at every step of the run (those lookups answer from the rows recorded so far), and on a run recorded in three legs whose landing steps are interior rows; numpy integers (int64, int32, intp, uint8) are integer indices.", "DESIGN.md 3/C19"),
     "C20": _entry("other",
         "Independent counters inside the user rhs / Jacobian: on every feasible path of explicit, FSAL+rejection, splitting, implicit (user Jacobian and real finite-difference "
         "JacobianWrapper) runs nfev equals the completed user calls at every callback and at the end, also after faults and reset; callbacks in the given order, after the new row "
-        "is visible, once per recorded step; a dt assigned by a callback is the magnitude of the next attempted step - also the first step of a continuation call after a short call (target nearer than the working step); two systems built on ONE rhs callable and used alternately each count only their own calls / Jacobian requests; with events (oracle): callbacks once per outer step that recorded rows, each sees new rows, the last sees the final row.", "DESIGN.md 3/C20"),
+        "is visible, once per recorded step; a dt assigned by a callback is the magnitude of the next attempted step - also the first step of a continuation call after a short call (target nearer than the working step); a callback that removes itself from the caller's list during the run does not disturb the invocations of the call; two systems built on ONE rhs callable and used alternately each count only their own calls / Jacobian requests; with events (oracle): callbacks once per outer step that recorded rows, each sees new rows, the last sees the final row.", "DESIGN.md 3/C20"),
 }
 
 NOT_APPLICABLE = [
